@@ -200,18 +200,53 @@ def _r3_aspath(model: Model, run: Run, folder: Folder) -> None:
         run.check(any(dotted(t) == 'self._asn4' and pol for t, pol in g), fi.qualname, 'stored bytes reused only when already 4-byte', fi.loc(short_ret[0]), 'stored 2-byte bytes must be re-packed for an ASN4 peer')
     rest = fi.node.body[fi.node.body.index(top) + 1 :]
     txt = '\n'.join(norm(s) for s in rest)
-    # substitution loop
-    subst = None
+    # substitution: AS_TRANS stands for an ASN exactly when asn.asn4() says it needs 4 bytes (if-statement or conditional expression)
+    subst_ok = False
+    for st in rest:
+        for n in walk_with_lambdas(st):
+            if isinstance(n, ast.If) and 'asn.asn4()' in norm(n.test):
+                neg = isinstance(n.test, ast.UnaryOp)
+                small, large = (n.body, n.orelse) if neg else (n.orelse, n.body)
+                if any('append(asn)' in norm(x) for x in small) and any('append(AS_TRANS)' in norm(x) for x in large):
+                    subst_ok = True
+            if isinstance(n, ast.IfExp) and 'asn.asn4()' in norm(n.test):
+                neg = isinstance(n.test, ast.UnaryOp)
+                big, small_e = (n.orelse, n.body) if neg else (n.body, n.orelse)
+                if norm(big) == 'AS_TRANS' and norm(small_e) == 'asn':
+                    subst_ok = True
+    run.check(subst_ok, fi.qualname, 'every 4-byte ASN replaced by AS_TRANS, every other ASN kept', fi.loc(), 'RFC 6793 4.2.2: AS_TRANS stands for each unmappable AS')
+    # the flag gating AS4_PATH is accumulated over ALL segments
+    flag = None
     for st in rest:
         for n in walk_no_nested(st):
-            if isinstance(n, ast.If) and 'asn.asn4()' in norm(n.test):
-                subst = n
-    ok_sub = False
-    if subst is not None:
-        neg = isinstance(subst.test, ast.UnaryOp)
-        small, large = (subst.body, subst.orelse) if neg else (subst.orelse, subst.body)
-        ok_sub = any('append(asn)' in norm(s) for s in small) and any('append(AS_TRANS)' in norm(s) for s in large) and any(isinstance(s, ast.Assign) and folder.fold(s.value, fi.module) is True for s in large)
-    run.check(ok_sub, fi.qualname, 'every 4-byte ASN replaced by AS_TRANS and flagged', fi.loc(subst) if subst is not None else fi.loc(), 'RFC 6793 4.2.2: AS_TRANS stands for each unmappable AS')
+            if isinstance(n, ast.If) and isinstance(n.test, ast.Name) and any('AS4Path' in norm(x) for x in n.body):
+                flag = n.test.id
+    if flag is None:
+        run.cannot('the flag gating AS4_PATH was not found in ASPath.pack_attribute')
+    else:
+        seg_loops = [n for st in rest for n in walk_no_nested(st) if isinstance(n, ast.For) and norm(n.iter) == 'self.aspath']
+        bad_assign = None
+        sets_true = False
+        for loop in seg_loops:
+            for n in walk_no_nested(loop):
+                if isinstance(n, ast.Assign) and dotted(n.targets[0]) == flag:
+                    v = n.value
+                    monotone = (isinstance(v, ast.Constant) and v.value is True) or (isinstance(v, ast.BoolOp) and isinstance(v.op, ast.Or) and any(dotted(x) == flag for x in v.values))
+                    if monotone:
+                        sets_true = True
+                    else:
+                        bad_assign = n
+                if isinstance(n, ast.AugAssign) and dotted(n.target) == flag and isinstance(n.op, ast.BitOr):
+                    sets_true = True
+        init_false = any(isinstance(n, ast.Assign) and dotted(n.targets[0]) == flag and folder.fold(n.value, fi.module) is False for st in rest for n in walk_no_nested(st))
+        run.check(
+            bad_assign is None and sets_true and init_false,
+            fi.qualname,
+            '%s starts False and is only ever raised inside the per-segment loop' % flag,
+            fi.loc(bad_assign) if bad_assign is not None else fi.loc(),
+            'the flag that decides whether AS4_PATH is sent is overwritten for each segment (%s): a 4-byte ASN in a non-final segment is '
+            'replaced by AS_TRANS and no AS4_PATH follows, so the real AS number is lost' % (norm(bad_assign) if bad_assign is not None else 'never set'),
+        )
     trans = folder.resolve_fullname('exabgp.bgp.message.open.asn.AS_TRANS')
     run.check(trans == 23456, ASPATH, 'AS_TRANS = %s' % (trans,), fi.loc(), 'AS_TRANS is 23456')
     # 2-byte packing of the substituted path
